@@ -5,7 +5,23 @@ package vs
 var (
 	ClockOn bool
 	NowNS   int64
+	// TickOn: every clock read returns a fresh, strictly increasing instant (the clock advances by
+	// one tick per read) and is recorded on the reading virtual thread. This lets generated
+	// schedules interleave the passage of time with the steps of a call.
+	TickOn bool
 )
+
+// ReadClock is what vtime.Now() is made of while the virtual clock is on.
+func ReadClock() int64 {
+	v := NowNS
+	if TickOn {
+		NowNS++
+		if s := active; s != nil && s.running != nil {
+			s.running.ClockReads = append(s.running.ClockReads, v)
+		}
+	}
+	return v
+}
 
 // Epoch is the instant the virtual clock starts at in every case
 // (2023-11-14T22:13:20Z), far from 0 and far from overflow.
